@@ -135,10 +135,25 @@ def run(ctx):
     calls = gen_calls(rng, thorough)
     cfile = os.path.join(ctx.scratch, "c12_calls.json")
     json.dump(calls, open(cfile, "w"))
+    # choose the hash seeds so that the interpreters really iterate small name sets in different orders (a handful of
+    # arbitrary seeds iterates a 2-element set in one and the same order with probability 2^-(K-1))
+    base = (ctx.seed % 7) * 100
+    cand = {}
+    probes = [subprocess.Popen([PY, "-c", "print(list({'a1','a2'}), list({'a1','a2','a3'}), list({'X','Y','Z'}), list({'m1','m2','m3'}))"],
+                               env=dict(os.environ, PYTHONHASHSEED=str(base + j)), stdout=subprocess.PIPE, text=True) for j in range(4 * K)]
+    for j, p_ in enumerate(probes):
+        cand[base + j] = p_.communicate()[0].strip()
+    hashseeds, seen_orders = [], set()
+    parts_of = {hs: set(enumerate(sig_.split("] ["))) for hs, sig_ in cand.items()}
+    while len(hashseeds) < K:                           # greedily: the seed that adds most iteration orders not seen yet
+        best = max((hs for hs in cand if hs not in hashseeds), key=lambda hs: (len(parts_of[hs] - seen_orders), -hs))
+        hashseeds.append(best)
+        seen_orders |= parts_of[best]
+    ctx.extra["hash_seeds"] = hashseeds
     procs = []
     for v in range(K):
         ofile = os.path.join(ctx.scratch, f"c12_out_{v}.json")
-        env = driver_env({"PYTHONHASHSEED": str(v + (ctx.seed % 7) * 100)})
+        env = driver_env({"PYTHONHASHSEED": str(hashseeds[v])})
         procs.append((v, ofile, subprocess.Popen([PY, "-m", "harness.props.c12", cfile, ofile, str(v)], cwd=ROOT, env=env,
                                                  stdout=subprocess.PIPE, stderr=subprocess.STDOUT, text=True)))
     results = {}
